@@ -27,7 +27,7 @@ def cases(ctx):
                 yield {'D': s}
     rng = ctx.rng
     for i in range(700 if not thorough else 8000):
-        s = gen.random_dfa(rng, 7)
+        s = gen.counter_dfa(rng) if i % 7 == 3 else gen.random_dfa(rng, 7)
         if not thorough or ctx.mine(i):
             yield {'D': s, 'sched': [rng.randint(0, 7) for _ in range(10)]}
 
